@@ -12,6 +12,7 @@ import (
 	"fmt"
 	"math/big"
 	"math/rand"
+	"runtime/debug"
 	"strings"
 	gosync "sync"
 	"testing"
@@ -56,6 +57,8 @@ type rpcConfig struct {
 	Version  string `json:"version"`
 	API      string `json:"api"`
 	Seed     int64  `json:"seed"`
+	// Concurrent: readers ask for proofs while the second half of the behaviour (and more blocks) is stored
+	Concurrent bool `json:"concurrent"`
 }
 
 type rpcInput struct {
@@ -391,6 +394,222 @@ func hexList(fs []*felt.Felt) string {
 	return "[" + strings.Join(ss, ",") + "]"
 }
 
+var (
+	allContracts = []string{"c1", "c2", "c3", "sys"}
+	allSlots     = []string{"s1", "s2", "s3", "s4"}
+	allSierras   = []string{"k1", "k2"}
+)
+
+// request for everything the model knows about; storage keys for `owners`; dup = every list entry twice
+// (the RPC must answer as for the de-duplicated request)
+func makeRequest(conc *concrete, owners []string, dup bool) string {
+	rep := func(fs []*felt.Felt) []*felt.Felt {
+		if dup {
+			return append(append([]*felt.Felt{}, fs...), fs...)
+		}
+		return fs
+	}
+	var classFs, contractFs []*felt.Felt
+	for _, k := range allSierras {
+		classFs = append(classFs, conc.sierra[k])
+	}
+	for _, c := range allContracts {
+		contractFs = append(contractFs, conc.addr[c])
+	}
+	var skeys []string
+	for _, c := range owners {
+		var ks []*felt.Felt
+		for _, s := range allSlots {
+			ks = append(ks, conc.slot[s])
+		}
+		skeys = append(skeys, fmt.Sprintf(`{"contract_address":"%s","storage_keys":%s}`, conc.addr[c].String(), hexList(rep(ks))))
+	}
+	if dup {
+		skeys = append(skeys, skeys...)
+	}
+	return fmt.Sprintf(`{"jsonrpc":"2.0","id":1,"method":"starknet_getStorageProof","params":{"block_id":"latest","class_hashes":%s,"contract_addresses":%s,"contracts_storage_keys":[%s]}}`,
+		hexList(rep(classFs)), hexList(rep(contractFs)), strings.Join(skeys, ","))
+}
+
+// judge checks one response on the wire format. recs = every block the node may have served from. When
+// atomic is false (concurrent round) the block the roots belong to is searched for; the invariants are the
+// same: the roots are the preimage of the state root of the block reported in global_roots.block_hash,
+// every proof verifies against those roots, and what the proofs establish is the abstract state of THAT block.
+func judge(raw []byte, conc *concrete, cfg rpcConfig, be string, owners []string, recs []blockRec, kind string,
+	report func(key, what string, exp, obs any), count func(string),
+) (orderWrong bool) {
+	var env struct {
+		Result *wireResult     `json:"result"`
+		Error  json.RawMessage `json:"error"`
+	}
+	if err := json.Unmarshal(raw, &env); err != nil || env.Result == nil {
+		report(fmt.Sprintf("rpc-proof%s:no-result:%s:%s", kind, cfg.API, be), "starknet_getStorageProof returned no result: "+string(raw[:min(len(raw), 300)]), nil, nil)
+		return
+	}
+	res := env.Result
+	since := cfg.Version >= "0.14.0"
+	var rec *blockRec
+	for i := range recs {
+		if recs[i].header.Hash != nil && res.GlobalRoots.BlockHash != nil && recs[i].header.Hash.Equal(res.GlobalRoots.BlockHash) {
+			rec = &recs[i]
+		}
+	}
+	if rec == nil {
+		report("rpc-proof"+kind+":global-roots:block-hash:"+be, "global_roots.block_hash is not the hash of a block of this chain", nil, fmt.Sprint(res.GlobalRoots.BlockHash))
+		return
+	}
+	if kind == "" && rec.header.Number != recs[len(recs)-1].header.Number {
+		report("rpc-proof:global-roots:block-hash:"+be, "global_roots.block_hash is not the head block hash", recs[len(recs)-1].header.Number, rec.header.Number)
+	}
+	if res.GlobalRoots.Contracts == nil || res.GlobalRoots.Classes == nil {
+		report("rpc-proof"+kind+":global-roots:missing:"+be, "global_roots lacks a tree root", nil, nil)
+		return
+	}
+	comm := refimpl.StateCommitment(res.GlobalRoots.Contracts, res.GlobalRoots.Classes, since)
+	if !comm.Equal(rec.header.GlobalStateRoot) {
+		// which block do the roots belong to?
+		other := -1
+		for i := range recs {
+			if recs[i].header.GlobalStateRoot != nil && comm.Equal(recs[i].header.GlobalStateRoot) {
+				other = int(recs[i].header.Number)
+			}
+		}
+		if kind == ":concurrent" && other >= 0 {
+			report("rpc-proof:concurrent:roots-of-another-block:"+cfg.API,
+				"a response served while blocks were being stored reports the hash of one block and the tree roots of another "+
+					"(StorageProof reads the head state and the head block hash in two steps; TODO in rpc/v10/storage.go)",
+				fmt.Sprintf("roots of block %d", rec.header.Number), fmt.Sprintf("roots of block %d", other))
+			for i := range recs {
+				if int(recs[i].header.Number) == other {
+					rec = &recs[i] // judge the proofs against the block the roots belong to
+				}
+			}
+		} else {
+			report("rpc-proof"+kind+":global-roots:preimage:"+be, "the reported block's state root is not the commitment of (contracts_tree_root, classes_tree_root)",
+				rec.header.GlobalStateRoot.String(), comm.String())
+			return
+		}
+	}
+	st := rec.st
+	count("responses-judged" + kind)
+	// classes proof
+	cn, err := protoNodes(res.ClassesProof, refimpl.Poseidon)
+	if err != nil {
+		report("rpc-proof"+kind+":classes:malformed:"+be, err.Error(), nil, nil)
+	} else {
+		for _, k := range allSierras {
+			want := felt.Zero
+			if x := st.declared[k]; x != "" {
+				want = refimpl.ClassLeaf(conc.compiled[x])
+			}
+			got, err := refimpl.Verify(*res.GlobalRoots.Classes, bf(conc.sierra[k]), 251, cn, refimpl.Poseidon)
+			count("proof-checks")
+			if err != nil || !got.Equal(&want) {
+				report("rpc-proof"+kind+":classes:"+be, fmt.Sprintf("classes_proof does not establish class %s (err %v)", k, err), want.String(), got.String())
+			}
+		}
+	}
+	// contracts proof + leaves data
+	pn, err := protoNodes(res.ContractsProof.Nodes, refimpl.Pedersen)
+	if err != nil {
+		report("rpc-proof"+kind+":contracts:malformed:"+be, err.Error(), nil, nil)
+		return
+	}
+	if len(res.ContractsProof.Leaves) != len(allContracts) {
+		report("rpc-proof"+kind+":contracts:leaves-count:"+be, "contract_leaves_data length differs from the (de-duplicated) request", len(allContracts), len(res.ContractsProof.Leaves))
+		return
+	}
+	roots := map[string]*felt.Felt{}
+	for i, c := range allContracts {
+		leaf := res.ContractsProof.Leaves[i]
+		want := felt.Zero
+		if st.deployed[c] != "" {
+			if leaf == nil {
+				report("rpc-proof"+kind+":contracts:leaf-missing:"+be, "no leaf data for deployed contract "+c, nil, nil)
+				continue
+			}
+			if !leaf.ClassHash.Equal(conc.class[st.deployed[c]]) || leaf.Nonce.Uint64() != uint64(st.nonce[c]) {
+				report("rpc-proof"+kind+":contracts:leaf-data:"+be, "leaf data (class hash / nonce) of "+c+" differs from the model", nil, nil)
+			}
+			want = refimpl.ContractLeaf(leaf.ClassHash, leaf.StorageRoot, leaf.Nonce)
+			roots[c] = leaf.StorageRoot
+		} else if leaf != nil {
+			report("rpc-proof"+kind+":contracts:leaf-for-absent:"+be, "leaf data for a contract that does not exist: "+c, nil, nil)
+		}
+		got, err := refimpl.Verify(*res.GlobalRoots.Contracts, bf(conc.addr[c]), 251, pn, refimpl.Pedersen)
+		count("proof-checks")
+		if err != nil || !got.Equal(&want) {
+			report("rpc-proof"+kind+":contracts:"+be, fmt.Sprintf("contracts_proof does not establish contract %s (err %v)", c, err), want.String(), got.String())
+		}
+	}
+	// storage proofs against the storage root of the contract's leaf, by position
+	if len(res.StorageProofs) != len(owners) {
+		report("rpc-proof"+kind+":storage:count:"+be, "contracts_storage_proofs length differs from the (de-duplicated) request", len(owners), len(res.StorageProofs))
+		return
+	}
+	for i, c := range owners {
+		if roots[c] == nil {
+			continue
+		}
+		// the verifier itself is order-agnostic (it looks for the set that contains the storage root) so that a
+		// wrong ORDER is reported as such and not as an unverifiable proof
+		pick := i
+		if !roots[c].IsZero() {
+			has := func(j int) bool {
+				for _, w := range res.StorageProofs[j] {
+					if w.Hash != nil && w.Hash.Equal(roots[c]) {
+						return true
+					}
+				}
+				return false
+			}
+			if !has(i) {
+				for j := range res.StorageProofs {
+					if has(j) {
+						pick = j
+						break
+					}
+				}
+			}
+		}
+		if pick != i {
+			orderWrong = true
+			report("rpc-proof:storage-order:not-request-order:"+cfg.API,
+				"contracts_storage_proofs is not in the order of the request's contracts_storage_keys: a client cannot associate a proof with its contract by position", i, pick)
+		}
+		sn, err := protoNodes(res.StorageProofs[pick], refimpl.Pedersen)
+		if err != nil {
+			report("rpc-proof"+kind+":storage:malformed:"+be, err.Error(), nil, nil)
+			continue
+		}
+		for _, s := range allSlots {
+			want := conc.val[st.store[c][s]]
+			got, err := refimpl.Verify(*roots[c], bf(conc.slot[s]), 251, sn, refimpl.Pedersen)
+			count("proof-checks")
+			if err != nil || !got.Equal(want) {
+				report("rpc-proof"+kind+":storage:"+be, fmt.Sprintf("storage proof does not establish %s[%s] (err %v)", c, s, err), want.String(), got.String())
+			}
+		}
+	}
+	return orderWrong
+}
+
+func deployedOwners(st *absState) []string {
+	var owners []string
+	for _, c := range allContracts {
+		if st.deployed[c] != "" {
+			owners = append(owners, c)
+		}
+	}
+	return owners
+}
+
+func guard(out *vh.Result, test string) {
+	if p := recover(); p != nil {
+		out.Diverge(vh.Divergence{Key: "crash:" + test, What: fmt.Sprintf("the real code panicked in %s: %v", test, p), Observed: string(debug.Stack())})
+	}
+}
+
 func TestStorageProofRPC(t *testing.T) {
 	if !vh.Enabled() {
 		t.Skip("driver only")
@@ -401,213 +620,202 @@ func TestStorageProofRPC(t *testing.T) {
 	}
 	out := vh.NewResult()
 	defer out.Write()
+	defer guard(out, "TestStorageProofRPC")
 	apis := []string{"v10", "v9", "v8"}
+	count := func(k string) { out.Count("rpc_"+k, 1) }
 	for bi, beh := range in.Behaviours {
 		cfgs := in.Configs
 		if len(cfgs) == 0 {
 			ver := []string{"0.14.0", "0.13.2"}[bi%2]
 			for _, ns := range []bool{false, true} {
 				cfgs = append(cfgs, rpcConfig{NewState: ns, Version: ver, API: apis[bi%3], Seed: vh.Seed()*7919 + int64(bi)})
+				if bi%3 == 0 { // a concurrent round on every third behaviour, both backends
+					cfgs = append(cfgs, rpcConfig{NewState: ns, Version: ver, API: apis[(bi/3)%3], Seed: vh.Seed()*7919 + int64(bi), Concurrent: true})
+				}
 			}
 		}
 		for _, cfg := range cfgs {
-			be := "deprecatedstate"
-			if cfg.NewState {
-				be = "newstate"
+			if cfg.Concurrent {
+				concurrentRound(out, beh, cfg, count)
+				continue
 			}
+			be := backend(cfg)
 			report := func(key, what string, exp, obs any) {
 				out.Diverge(vh.Divergence{Key: key, What: what, Expected: exp, Observed: obs,
 					Input: rpcInput{Behaviours: [][]stStep{beh}, Configs: []rpcConfig{cfg}}})
+				_ = out.Write()
 			}
-			conc := newConcrete(cfg.Seed)
-			bc, st, head, err := buildChain(beh, cfg, conc)
-			if err != nil {
-				report("rpc-proof-harness:finalise:"+be, err.Error(), nil, nil)
-				continue
-			}
-			if head == nil {
-				continue
-			}
-			contracts := []string{"c1", "c2", "c3", "sys"}
-			slots := []string{"s1", "s2", "s3", "s4"}
-			sierras := []string{"k1", "k2"}
-			var classFs, contractFs []*felt.Felt
-			for _, k := range sierras {
-				classFs = append(classFs, conc.sierra[k])
-			}
-			var skeys []string
-			var storageOwners []string
-			for _, c := range contracts {
-				contractFs = append(contractFs, conc.addr[c])
-				if st.deployed[c] != "" {
-					var ks []*felt.Felt
-					for _, s := range slots {
-						ks = append(ks, conc.slot[s])
+			func() {
+				defer func() {
+					if p := recover(); p != nil {
+						report("crash:rpc-storage-proof:"+be, fmt.Sprintf("panic while building the chain / serving starknet_getStorageProof: %v", p), nil, string(debug.Stack()))
 					}
-					skeys = append(skeys, fmt.Sprintf(`{"contract_address":"%s","storage_keys":%s}`, conc.addr[c].String(), hexList(ks)))
-					storageOwners = append(storageOwners, c)
-				}
-			}
-			req := fmt.Sprintf(`{"jsonrpc":"2.0","id":1,"method":"starknet_getStorageProof","params":{"block_id":"latest","class_hashes":%s,"contract_addresses":%s,"contracts_storage_keys":[%s]}}`,
-				hexList(classFs), hexList(contractFs), strings.Join(skeys, ","))
-			raw, err := serve(bc, cfg.API, req)
-			out.Done(1, 1)
-			if err != nil {
-				report("rpc-proof:server-error:"+cfg.API, err.Error(), nil, nil)
-				continue
-			}
-			var env struct {
-				Result *wireResult     `json:"result"`
-				Error  json.RawMessage `json:"error"`
-			}
-			if err := json.Unmarshal(raw, &env); err != nil || env.Result == nil {
-				report(fmt.Sprintf("rpc-proof:no-result:%s:%s", cfg.API, be), "starknet_getStorageProof returned no result: "+string(raw[:min(len(raw), 300)]), nil, nil)
-				continue
-			}
-			res := env.Result
-			// global roots: block hash of the head, and the preimage of the header's state root
-			if res.GlobalRoots.BlockHash == nil || !res.GlobalRoots.BlockHash.Equal(head.Hash) {
-				report("rpc-proof:global-roots:block-hash:"+be, "global_roots.block_hash is not the head block hash", head.Hash.String(), fmt.Sprint(res.GlobalRoots.BlockHash))
-			}
-			since := cfg.Version >= "0.14.0"
-			comm := refimpl.StateCommitment(res.GlobalRoots.Contracts, res.GlobalRoots.Classes, since)
-			if !comm.Equal(head.GlobalStateRoot) {
-				report("rpc-proof:global-roots:preimage:"+be, "the header's state root is not the commitment of (contracts_tree_root, classes_tree_root)", head.GlobalStateRoot.String(), comm.String())
-			}
-			// classes proof
-			cn, err := protoNodes(res.ClassesProof, refimpl.Poseidon)
-			if err != nil {
-				report("rpc-proof:classes:malformed:"+be, err.Error(), nil, nil)
-			} else {
-				for _, k := range sierras {
-					want := felt.Zero
-					if x := st.declared[k]; x != "" {
-						want = refimpl.ClassLeaf(conc.compiled[x])
-					}
-					got, err := refimpl.Verify(*res.GlobalRoots.Classes, bf(conc.sierra[k]), 251, cn, refimpl.Poseidon)
-					out.Done(0, 1)
-					if err != nil || !got.Equal(&want) {
-						report("rpc-proof:classes:"+be, fmt.Sprintf("classes_proof does not establish class %s (err %v)", k, err), want.String(), got.String())
-					}
-				}
-			}
-			// contracts proof + leaves data
-			pn, err := protoNodes(res.ContractsProof.Nodes, refimpl.Pedersen)
-			if err != nil {
-				report("rpc-proof:contracts:malformed:"+be, err.Error(), nil, nil)
-				continue
-			}
-			if len(res.ContractsProof.Leaves) != len(contracts) {
-				report("rpc-proof:contracts:leaves-count:"+be, "contract_leaves_data length differs from the request", len(contracts), len(res.ContractsProof.Leaves))
-				continue
-			}
-			roots := map[string]*felt.Felt{}
-			orderWrong := false
-			for i, c := range contracts {
-				leaf := res.ContractsProof.Leaves[i]
-				want := felt.Zero
-				if st.deployed[c] != "" {
-					if leaf == nil {
-						report("rpc-proof:contracts:leaf-missing:"+be, "no leaf data for deployed contract "+c, nil, nil)
-						continue
-					}
-					if !leaf.ClassHash.Equal(conc.class[st.deployed[c]]) || leaf.Nonce.Uint64() != uint64(st.nonce[c]) {
-						report("rpc-proof:contracts:leaf-data:"+be, "leaf data (class hash / nonce) of "+c+" differs from the model", nil, nil)
-					}
-					want = refimpl.ContractLeaf(leaf.ClassHash, leaf.StorageRoot, leaf.Nonce)
-					roots[c] = leaf.StorageRoot
-				} else if leaf != nil {
-					report("rpc-proof:contracts:leaf-for-absent:"+be, "leaf data for a contract that does not exist: "+c, nil, nil)
-				}
-				got, err := refimpl.Verify(*res.GlobalRoots.Contracts, bf(conc.addr[c]), 251, pn, refimpl.Pedersen)
-				out.Done(0, 1)
-				if err != nil || !got.Equal(&want) {
-					report("rpc-proof:contracts:"+be, fmt.Sprintf("contracts_proof does not establish contract %s (err %v)", c, err), want.String(), got.String())
-				}
-			}
-			// storage proofs against the storage root of the contract's leaf
-			if len(res.StorageProofs) != len(storageOwners) {
-				report("rpc-proof:storage:count:"+be, "contracts_storage_proofs length differs from the request", len(storageOwners), len(res.StorageProofs))
-				continue
-			}
-			for i, c := range storageOwners {
-				if roots[c] == nil {
-					continue
-				}
-				// which node set proves this contract's storage?  By position it must be the i-th; the verifier
-				// itself is order-agnostic (it looks for the set that contains the storage root) so that a wrong
-				// ORDER is reported as such and not as an unverifiable proof.
-				pick := i
-				if !roots[c].IsZero() {
-					has := func(j int) bool {
-						for _, w := range res.StorageProofs[j] {
-							if w.Hash != nil && w.Hash.Equal(roots[c]) {
-								return true
-							}
-						}
-						return false
-					}
-					if !has(i) {
-						for j := range res.StorageProofs {
-							if has(j) {
-								pick = j
-								break
-							}
-						}
-					}
-				}
-				if pick != i {
-					orderWrong = true
-					report("rpc-proof:storage-order:not-request-order:"+cfg.API,
-						"contracts_storage_proofs is not in the order of the request's contracts_storage_keys (processStorageKeys iterates a Go map): "+
-							"a client cannot associate a proof with its contract by position", i, pick)
-				}
-				sn, err := protoNodes(res.StorageProofs[pick], refimpl.Pedersen)
+				}()
+				conc := newConcrete(cfg.Seed)
+				c, err := buildChain(beh, cfg, conc)
 				if err != nil {
-					report("rpc-proof:storage:malformed:"+be, err.Error(), nil, nil)
-					continue
+					report("rpc-proof-harness:finalise:"+be, err.Error(), nil, nil)
+					return
 				}
-				for _, s := range slots {
-					want := conc.val[st.store[c][s]]
-					got, err := refimpl.Verify(*roots[c], bf(conc.slot[s]), 251, sn, refimpl.Pedersen)
-					out.Done(0, 1)
-					if err != nil || !got.Equal(want) {
-						report("rpc-proof:storage:"+be, fmt.Sprintf("storage proof does not establish %s[%s] (err %v)", c, s, err), want.String(), got.String())
-					}
+				recs := c.records()
+				if len(recs) == 0 {
+					return
 				}
-			}
-			// the order defect depends on Go's map iteration order: ask again a few times so that a run (and a
-			// replay) observes it reliably
-			if !orderWrong && len(storageOwners) >= 2 {
-				for attempt := 0; attempt < 60 && !orderWrong; attempt++ {
-					raw, err := serve(bc, cfg.API, req)
-					var env2 struct {
-						Result *wireResult `json:"result"`
+				owners := deployedOwners(c.st)
+				for _, dup := range []bool{false, true} {
+					req := makeRequest(conc, owners, dup)
+					kind := ""
+					if dup {
+						kind = ":duplicates" // degenerate request: every entry twice
 					}
-					if err != nil || json.Unmarshal(raw, &env2) != nil || env2.Result == nil || len(env2.Result.StorageProofs) != len(storageOwners) {
-						break
-					}
-					for i, c := range storageOwners {
-						if roots[c] == nil || roots[c].IsZero() {
-							continue
+					orderWrong := false
+					// the (fixed) order defect depended on Go's map iteration order: ask a few times
+					for attempt := 0; attempt < 8 && !orderWrong; attempt++ {
+						raw, err := serve(c.bc, cfg.API, req)
+						out.Done(0, 1)
+						if err != nil {
+							report("rpc-proof:server-error:"+cfg.API, err.Error(), nil, nil)
+							break
 						}
-						found := false
-						for _, w := range env2.Result.StorageProofs[i] {
-							if w.Hash != nil && w.Hash.Equal(roots[c]) {
-								found = true
-							}
+						k := kind
+						if attempt > 0 {
+							k = ":again" + kind
 						}
-						if !found {
-							orderWrong = true
-							report("rpc-proof:storage-order:not-request-order:"+cfg.API,
-								"contracts_storage_proofs is not in the order of the request's contracts_storage_keys (processStorageKeys iterates a Go map): "+
-									"a client cannot associate a proof with its contract by position", i, "another position")
+						orderWrong = judge(raw, conc, cfg, be, owners, recs[len(recs)-1:], strings.Replace(k, ":again", "", 1), report, count)
+						if len(owners) < 2 {
 							break
 						}
 					}
 				}
-			}
-			out.Count("rpc_requests_"+cfg.API+"_"+be, 1)
+				out.Done(1, 0)
+				out.Count("rpc_requests_"+cfg.API+"_"+be, 1)
+			}()
 		}
 	}
+}
+
+func backend(cfg rpcConfig) string {
+	if cfg.NewState {
+		return "newstate"
+	}
+	return "deprecatedstate"
+}
+
+// concurrentRound: readers ask for storage proofs for the whole time a writer stores further blocks; every
+// response is judged afterwards by the same invariants (the roots are those of the reported block; every
+// proof verifies against them; what they establish is the abstract state of that block).
+func concurrentRound(out *vh.Result, beh []stStep, cfg rpcConfig, count func(string)) {
+	be := backend(cfg)
+	report := func(key, what string, exp, obs any) {
+		out.Diverge(vh.Divergence{Key: key, What: what, Expected: exp, Observed: obs,
+			Input: rpcInput{Behaviours: [][]stStep{beh}, Configs: []rpcConfig{cfg}}})
+		_ = out.Write()
+	}
+	conc := newConcrete(cfg.Seed)
+	c := newChain(cfg, conc)
+	groups, _ := groupsOf(beh)
+	half := len(groups) / 2
+	for _, g := range groups[:half] {
+		if err := c.finalise(g); err != nil {
+			report("rpc-proof-harness:finalise:"+be, err.Error(), nil, nil)
+			return
+		}
+	}
+	if len(c.records()) == 0 {
+		return
+	}
+	owners := deployedOwners(c.st) // stays deployed
+	req := makeRequest(conc, owners, false)
+	// the writer's remaining work: the rest of the behaviour, then blocks that keep rewriting slots of the owners
+	rest := append([][]stAction{}, groups[half:]...)
+	for i := 0; i < 40; i++ {
+		var g []stAction
+		for j, o := range owners {
+			if o == "sys" {
+				continue
+			}
+			g = append(g, stAction{Name: "Write", C: o, S: allSlots[(i+j)%4], V: 1 + (i+j)%3})
+		}
+		rest = append(rest, g)
+	}
+	type answer struct {
+		raw []byte
+		err error
+	}
+	var mu gosync.Mutex
+	var answers []answer
+	stop := make(chan struct{})
+	var wg gosync.WaitGroup
+	const readers = 3
+	for r := 0; r < readers; r++ {
+		wg.Add(1)
+		go func() {
+			defer wg.Done()
+			defer func() {
+				if p := recover(); p != nil {
+					mu.Lock()
+					answers = append(answers, answer{err: fmt.Errorf("panic in starknet_getStorageProof: %v\n%s", p, debug.Stack())})
+					mu.Unlock()
+				}
+			}()
+			for {
+				raw, err := serve(c.bc, cfg.API, req)
+				mu.Lock()
+				answers = append(answers, answer{raw, err})
+				mu.Unlock()
+				select {
+				case <-stop:
+					return
+				default:
+				}
+			}
+		}()
+	}
+	var werr error
+	func() {
+		defer func() {
+			if p := recover(); p != nil {
+				werr = fmt.Errorf("panic in Finalise under concurrent readers: %v", p)
+			}
+		}()
+		for _, g := range rest {
+			if werr = c.finalise(g); werr != nil {
+				return
+			}
+			time.Sleep(200 * time.Microsecond)
+		}
+	}()
+	close(stop)
+	done := make(chan struct{})
+	go func() { wg.Wait(); close(done) }()
+	select {
+	case <-done:
+	case <-time.After(60 * time.Second):
+		report("rpc-proof:concurrent:reader-hang:"+cfg.API, "a starknet_getStorageProof call did not return within 60 s after the writer finished", nil, nil)
+		return
+	}
+	if werr != nil {
+		report("rpc-proof:concurrent:writer-error:"+be, "storing a block failed while storage proofs were being served: "+werr.Error(), nil, nil)
+	}
+	recs := c.records()
+	out.Count("rpc_concurrent_answers", len(answers))
+	out.Count("rpc_concurrent_blocks", len(rest))
+	for _, a := range answers {
+		if a.err != nil {
+			if strings.Contains(a.err.Error(), "panic") {
+				report("crash:rpc-storage-proof:concurrent:"+be, a.err.Error(), nil, nil)
+			} else {
+				report("rpc-proof:concurrent:server-error:"+cfg.API, a.err.Error(), nil, nil)
+			}
+			continue
+		}
+		// Every inconsistency of a response served during block storage has one cause per backend - the head state the
+		// handler reads is not a snapshot (deprecatedstate: an IndexedBatch over the live store; new state: path-keyed
+		// nodes of the live store) - and gets one key per backend; the symptom is kept in the description.
+		judge(a.raw, conc, cfg, be, owners, recs, ":concurrent", func(key, what string, exp, obs any) {
+			report("rpc-proof:concurrent:inconsistent-snapshot:"+be, "["+key+"] "+what+
+				" - a response served while blocks are being stored mixes the state of two blocks", exp, obs)
+		}, count)
+	}
+	out.Done(1, len(answers))
 }
